@@ -11,7 +11,9 @@ IMPORTS = "From Verde Require Import Lib.LinAlgD Model.LeastSquares Model.LSCase
 SHARD = 40
 RULE = ("random point clouds (3..30 points, 1-D and 2-D arrays, coordinate scales 1e-2..1e6, optional offsets up to 1e3 x extent), "
         "data of varied magnitude, weights none / uniform(0.1,3) / log-uniform over 6 decades (vector: east and north weights from "
-        "disjoint ranges), Trend degree 0..4, Spline with damping None or log-uniform in [1e-8,1e2], forces at the data or at a "
+        "disjoint ranges), every second case with the same estimator instance first fitted to ANOTHER data set of a different size "
+        "(Jacobian of the certificate from the estimator's force coordinates after the measured fit; a Spline without "
+        "force_coords must have its forces at the current data), Trend degree 0..4, Spline with damping None or log-uniform in [1e-8,1e2], forces at the data or at a "
         "separate smaller set, mindist variants, VectorSpline2D with poisson in [-1,1] incl. the end points. For each fit the "
         "implementation's own Jacobian, the data, weights, damping, fitted parameters and predictions go to Coq as exact dyadics; "
         "Coq evaluates the normal-equation residual of the property's objective exactly and requires it below 2^-30 of its "
@@ -122,12 +124,22 @@ def build(kind, conf):
                              force_coords=None if fc is None else (np.array(fc[0]), np.array(fc[1])))
 
 
-def fit(kind, conf, coords, data, weights):
-    """returns (A, d, w, p, pred) as flat numpy arrays (w None if no weights)"""
+FORCES_OK = [True]    # side channel of the last fit(): forces of a Spline without force_coords sit at the CURRENT data points
+
+
+def fit(kind, conf, coords, data, weights, prefit=None):
+    """returns (A, d, w, p, pred) as flat numpy arrays (w None if no weights).  prefit = (coords, data, weights) of a
+    DIFFERENT data set the same estimator instance is fitted to first; the Jacobian of the certificate is built from the
+    estimator's force coordinates AFTER the measured fit."""
     est = build(kind, conf)
     with warnings.catch_warnings():
         warnings.simplefilter("ignore")
+        if prefit is not None:
+            est.fit(*prefit)
         est.fit(coords, data, weights)
+        FORCES_OK[0] = True
+        if kind == "spline" and conf.get("force_coords") is None:
+            FORCES_OK[0] = all(np.array_equal(np.ravel(a), np.ravel(b)) for a, b in zip(est.force_coords_, coords[:2]))
         if kind == "trend":
             A = est.jacobian(coords)
             p = est.coef_
@@ -172,12 +184,21 @@ def describe(kind, conf, coords, data, weights):
     return REPRO % blob
 
 
-def fit_case(kind, conf, coords, data, weights, stream):
+def fit_case(kind, conf, coords, data, weights, stream, prefit=None):
     """one fitted estimator -> certificate case (or a counted skip)"""
-    A, d, w, p, pred = fit(kind, conf, coords, data, weights)
+    if prefit is not None:
+        stream += "-prefit"
+    A, d, w, p, pred = fit(kind, conf, coords, data, weights, prefit)
+    if not FORCES_OK[0]:
+        return Case({"estimator": kind, "config": conf, "coordinates": tolist(coords), "data": tolist(data), "weights": tolist(weights),
+                     "fitted_before_to": tolist(prefit[0]) if prefit is not None else None},
+                    {"n_forces": int(p.size), "n_data": int(d.size)}, "Vviol", describe(kind, conf, coords, data, weights),
+                    stream + "/forces-not-at-current-data", nontrivial=True)
     damping = conf.get("damping")
     kap = kappa_of(A, w, damping)
     inp = {"estimator": kind, "config": conf, "coordinates": tolist(coords), "data": tolist(data), "weights": tolist(weights)}
+    if prefit is not None:
+        inp["fitted_before_to"] = {"coordinates": tolist(prefit[0]), "data": tolist(prefit[1]), "weights": tolist(prefit[2])}
     out = {"params": p.tolist(), "kappa": kap, "shape": list(A.shape)}
     repro = describe(kind, conf, coords, data, weights)
     if damping is None and not kap <= 1e12:
@@ -375,20 +396,27 @@ def generate(tier, seed):
     cases = []
     nfit = {"quick": (30, 36, 30), "thorough": (300, 360, 300)}[tier]
     nmeta = {"quick": (12, 12), "thorough": (120, 120)}[tier]
+    def other(gen, i):
+        """every second case: the same instance is first fitted to another data set of the same kind (different size)"""
+        return gen(rnd, i + 1)[2:] if i % 2 else None
+
     for i in range(nfit[0]):
-        cases.append(fit_case(*gen_trend(rnd, i), stream="trend"))
+        cases.append(fit_case(*gen_trend(rnd, i), stream="trend", prefit=other(gen_trend, i)))
     for i in range(nfit[0] // 4):
         cases.append(fit_case(*gen_trend_offset(rnd, i), stream="trend-offset"))
     for i in range(nfit[1]):
         k, conf, coords, data, w = gen_spline(rnd, i)
         cases.append(fit_case(k, conf, coords, data, w,
                               stream="spline-%s-%s" % ("damped" if conf["damping"] is not None else "undamped",
-                                                       "forces-separate" if "force_coords" in conf else "forces-at-data")))
+                                                       "forces-separate" if "force_coords" in conf else "forces-at-data"),
+                              prefit=other(gen_spline, (i // 2) % 2 + 2 * (i // 4))))
     for i in range(nfit[2]):
         k, conf, coords, data, w = gen_vector(rnd, i)
+        # VectorSpline2D documents that it keeps the force locations of its first fit: refit only with explicit forces
         cases.append(fit_case(k, conf, coords, data, w,
                               stream="vector-%s-%s" % ("damped" if conf["damping"] is not None else "undamped",
-                                                       "forces-separate" if "force_coords" in conf else "forces-at-data")))
+                                                       "forces-separate" if "force_coords" in conf else "forces-at-data"),
+                              prefit=other(gen_vector, (i // 2) % 2 + 2 * (i // 4)) if "force_coords" in conf else None))
     for i in range(nmeta[0]):
         cases.append(gen_weights_times_constant(rnd, i))
     for i in range(nmeta[1]):
